@@ -22,11 +22,15 @@ ENUMI64 = "iana::EnumI64"
 WPR = "iana::WithPrivateRange"
 
 
-def check(ctx):
+def check_tables(ctx, only=None):
+    """R-1 / R-2 for all registries, or for the ones named in `only` (re-used by C08 / C10 / C18 for the registries whose
+    values decide what they accept: a wrong integer for a key type changes which keys are COSE_Keys)"""
     prog = ctx.prog
     # ---- R-1 table -------------------------------------------------------------
     total = 0
     for enum, table in sorted(REGISTRIES.items()):
+        if only is not None and enum not in only:
+            continue
         ds = prog.enum_discrs(enum)
         if ds is None:
             ctx.ob("R-1", "enum-present:%s" % enum, False, "registry enum %s exists" % enum, kind="missing-anchor")
@@ -42,11 +46,14 @@ def check(ctx):
             ctx.note("unverifiable-new-name in %s: %s (not in spec/iana.py; table-independent checks still apply)" % (enum, new))
         vals = list(ds.values())
         ctx.ob("R-1", "injective:%s" % enum, len(vals) == len(set(vals)), "no two names of %s share an integer" % enum)
-    ctx.floor("R-1", "name/integer pairs", total, 222)
     local_enums = [k for k, a in prog.adts.items() if k.startswith("iana::") and a["kind"] == "enum"]
-    extra = sorted(set(local_enums) - set(REGISTRIES))
-    if extra:
-        ctx.note("registry enums not in the table (unverifiable-new): %s" % extra)
+    if only is None:
+        ctx.floor("R-1", "name/integer pairs", total, 222)
+        extra = sorted(set(local_enums) - set(REGISTRIES))
+        if extra:
+            ctx.note("registry enums not in the table (unverifiable-new): %s" % extra)
+    else:
+        local_enums = [e for e in local_enums if e in only]
 
     # ---- R-2 from_i64 / to_i64 ----------------------------------------------------
     n_from = 0
@@ -101,8 +108,14 @@ def check(ctx):
         ok = rt == ("cast", "IntToInt", ("discr", ("deref", ("param", 0))), "i64")
         ctx.ob("R-2", "to_i64:%s" % enum, ok, "%s::to_i64 is the discriminant cast" % enum, where=g.span,
                detail={"return": show(rt)})
-    ctx.floor("R-2", "EnumI64 impls", n_from, 16)
+    if only is None:
+        ctx.floor("R-2", "EnumI64 impls", n_from, 16)
 
+
+
+def check(ctx):
+    prog = ctx.prog
+    check_tables(ctx)
     # ---- R-3 private ranges ---------------------------------------------------------------
     n_priv = 0
     for imp in prog.impls:
